@@ -525,7 +525,9 @@ func c05Check(c *Ctx, q c05Query, lines []string, shard int) {
 }
 
 var c05Shapes = map[string][]string{
-	"generickv": {"k=a|v=1|c=A", "k=a|v=2.5|c=A", "k=b|v=-3|c=B", "k=a|c=A", "k=a|v=x|c=A", "k=b|w=7", "k=a|v=0|c=A", "k=b|v=-1|c=B", "k=a|v=-1|c=A"},
+	"generickv": {"k=a|v=1|c=A", "k=a|v=2.5|c=A", "k=b|v=-3|c=B", "k=a|c=A", "k=a|v=x|c=A", "k=b|w=7", "k=a|v=0|c=A", "k=b|v=-1|c=B", "k=a|v=-1|c=A",
+		// the same value in DIFFERENT group-by fields of lines that each lack the other one (group by k,c: two groups)
+		"k=x|v=1", "c=x|v=5"},
 	"default": {"INFO|20211002-071209|1|f.go:1|8|10|0|0.1|1h|MAPREDUCE:T|k=a|v=1|c=A", "INFO|20211002-071209|1|f.go:1|8|10|0|0.1|1h|MAPREDUCE:T|k=a|v=2.5|c=A",
 		"INFO|20211002-071209|1|f.go:1|8|10|0|0.1|1h|MAPREDUCE:T|k=b|v=-3|c=B", "INFO|20211002-071209|1|f.go:1|8|10|0|0.1|1h|MAPREDUCE:T|k=a|c=A",
 		"WARN|20211002-071209|1|f.go:1|8|10|0|0.1|1h|MAPREDUCE:T|k=a|v=100|c=A", "INFO|20211002-071209|1|f.go:1|8|10|0|0.1|1h|MAPREDUCE:U|k=b|v=9", "not a mapreduce line"},
@@ -570,9 +572,12 @@ func c05Queries(full bool) (out []c05Query) {
 			}
 		}
 	}
+	// grouping by two fields (lines may lack either)
+	out = append(out, c05Query{Select: []string{"k", "c", "count(k)"}, Group: "k,c"},
+		c05Query{Select: []string{"count($line)", "sum(v)"}, Group: "k,c"},
+		c05Query{Select: []string{"count($line)", "sum(v)"}, Group: "c,k"})
 	if full {
 		out = append(out, c05Query{Select: []string{"$m", "count(k)"}, Set: "$m = maskdigits(v)", Group: "$m"},
-			c05Query{Select: []string{"k", "c", "count(k)"}, Group: "k,c"},
 			c05Query{Select: []string{"$hostname", "count(k)"}, Group: "$hostname"})
 	}
 	return
@@ -946,7 +951,7 @@ func init() {
 	Register(&Check{
 		ID:    "C05",
 		Level: "exploration",
-		Rule: "tables of <=2 (quick) / <=3 (thorough, generickv) log lines over 6-8 line shapes per format (generickv, default, csv; lines lacking a selected field, non-numeric values, negative values, other tables), every assignment of the lines " +
+		Rule: "tables of <=2 (quick) / <=3 (thorough, generickv) log lines over 6-11 line shapes per format (generickv, default, csv; lines lacking a selected field, non-numeric values, negative values, other tables), every assignment of the lines " +
 			"to cells {server0/file0/interval0, server0/file0/interval1, server0/file1, server1/file0}, x ~150 queries (select lists over count/sum/min/max/avg/len/last, where none/float/string, group by k/default, order/rorder/limit, set); " +
 			"each runs the real server Aggregate per server (lines fed per file, Serialize at the interval boundary), the real client MaprHandler/client.Aggregate and GlobalGroupSet.WriteResult; differential oracle: CSV result of the partitioned run == " +
 			"CSV result of the same code with the trivial partition (float tolerance 1e-9, ties in any order, limit keeps the best rows); last/len only on group-constant fields so that no choice is involved; plus complete dmap sessions over two files that hold six tables whose names are prefixes, suffixes and infixes of each other (STATS, STATS2, S, XSTATS, TATS, STATS_OLD) and plain lines mentioning them: 'from T' yields exactly the evaluation over the lines of table T; non-trivial = non-trivial partition and non-empty result",
